@@ -76,6 +76,8 @@ type SkelResult struct {
 	Elapsed        time.Duration
 	SkelError      string
 	SecondOpinion  int
+	ResolveRefusedParams int
+	sharedTriaged  bool
 	SharedWrites   []string
 	ResolveErrorAgreed bool // native Resolve and the oracle both say some reference designates nothing
 	ResolveRefused     bool // the package refused a schema its documentation says it may refuse
@@ -91,6 +93,8 @@ func expectResolve(oerr error) string {
 type VOptions struct {
 	Property      string
 	ValidatePaths bool // replay a model of every path natively (translator validation)
+	Havoc bool // C18a: non-asserting Schema fields are replaced by unconstrained symbolic values
+	SharedWritesAreFindings bool // C13/C14: a store into shared pre-state or the instance is a violation
 	MaxFindings   int
 }
 
@@ -234,6 +238,9 @@ func (w *Worker) RunValidateSkeleton(sk *Skeleton, opt VOptions) *SkelResult {
 	var secondVerdict Verdict
 	body := func(m *sx.Machine) sx.Value {
 		ers := ImportResolved(m, rs, true)
+		if opt.Havoc {
+			havocMeta(m, ers)
+		}
 		r1 := m.Call(validate, ers, sx.Iface{T: m.P.NodeT, V: root})
 		if sk.TwoCalls {
 			// first verdict is kept in Scratch; the second call's verdict is the return value
@@ -247,8 +254,15 @@ func (w *Worker) RunValidateSkeleton(sk *Skeleton, opt VOptions) *SkelResult {
 	npath := 0
 	m.Explore(body, func(m *sx.Machine, r *sx.PathResult) {
 		v := VerdictOf(r)
-		if len(r.SharedWrites) > 0 {
+		if len(r.SharedWrites) > 0 || m.AnyOverlay() {
 			res.SharedWrites = append(res.SharedWrites, r.SharedWrites...)
+			if m.AnyOverlay() {
+				res.SharedWrites = append(res.SharedWrites, "write into the instance")
+			}
+			if opt.SharedWritesAreFindings && !res.sharedTriaged {
+				res.sharedTriaged = true
+				w.triageSharedWrite(m, sk, rs, root, r, res, opt)
+			}
 		}
 		if v == VInconclusive {
 			res.Inconclusive = append(res.Inconclusive, r.Outcome+": "+r.Msg)
@@ -430,6 +444,13 @@ func (w *Worker) triage(m *sx.Machine, sk *Skeleton, rs *jsonschema.Resolved, ro
 	if check(inst, "first call") {
 		return
 	}
+	if opt.Havoc {
+		if differs, detail := decoratedVerdictDiffers(sk, inst); differs {
+			res.Findings = append(res.Findings, Finding{Property: opt.Property, Kind: "non-asserting-keyword-changes-verdict", Skeleton: sk.Name, Family: sk.Family, Doc: sk.Doc, Draft: sk.Draft,
+				Instance: canonicalJSON(inst), GoValue: DescribeGo(inst), Expected: "same verdict with and without non-asserting / unknown keywords", Observed: detail})
+			return
+		}
+	}
 	if root2 != nil && check(inst2, "second call on the same Resolved") {
 		return
 	}
@@ -497,3 +518,43 @@ func sortedCounts(m map[string]int) []string {
 }
 
 var _ = strings.Contains
+
+// triageSharedWrite confirms natively that Validate writes to state shared between
+// calls: first by a deep before/after comparison of the Resolved and the instance,
+// then under the race detector.
+func (w *Worker) triageSharedWrite(m *sx.Machine, sk *Skeleton, rs *jsonschema.Resolved, root *sx.Node, r *sx.PathResult, res *SkelResult, opt VOptions) {
+	what := strings.Join(r.SharedWrites, "; ")
+	if m.AnyOverlay() {
+		what += "; write into the instance"
+	}
+	var inst any
+	if m.S.Check() == smt.Sat {
+		inst, _, _ = w.modelInstances(m, root, nil)
+	}
+	f := Finding{Property: opt.Property, Kind: "shared-write", Skeleton: sk.Name, Family: sk.Family, Doc: sk.Doc, BaseURI: sk.BaseURI, Universe: sk.Universe, Draft: sk.Draft,
+		Instance: canonicalJSON(inst), GoValue: DescribeGo(inst), Expected: "Validate writes only to memory allocated during the call", Detail: what}
+	before := DeepDump(rs)
+	instBefore := DeepDump(inst)
+	NativeValidate(rs, inst)
+	if after := DeepDump(rs); after != before {
+		f.Observed = "the Resolved differs after Validate (deep comparison)"
+		res.Findings = append(res.Findings, f)
+		return
+	}
+	if DeepDump(inst) != instBefore {
+		f.Observed = "the instance differs after Validate (deep comparison)"
+		res.Findings = append(res.Findings, f)
+		return
+	}
+	if sk.Universe == nil && sk.BaseURI == "" {
+		raced, out := ConfirmRace(sk.Doc, draftDefaultURI(sk.Draft), canonicalJSON(inst), false)
+		if raced {
+			f.Observed = "data race reported by the race detector for concurrent Validate calls on one Resolved"
+			res.Findings = append(res.Findings, f)
+			return
+		}
+		res.EngineErrors = append(res.EngineErrors, "shared write seen by the engine ("+what+") not confirmed natively: "+trunc(out, 300))
+		return
+	}
+	res.EngineErrors = append(res.EngineErrors, "shared write seen by the engine ("+what+") not confirmed by deep comparison (race test needs a loader-free skeleton)")
+}
